@@ -194,6 +194,8 @@ class Monitor:
             mm.mp = mp
         for p in self.plugins:
             p.post_tick(self, market, mm, t)
+        if t > 0 and t % (self.ext.get("storage_chunk_applied") or 100) == 0 and "C06" not in self.on:
+            self.probe("storage_chunk_boundary_crossed")
         if "C08" in self.on or "C02" in self.on or "C04" in self.on:
             self.check_quotes(market, mm, "tick")
         if "C08" in self.on and 1 <= t <= 120 and not mm.diverged:
@@ -740,9 +742,10 @@ class Monitor:
                 self.viol("C08", "last_trade_price_wrong", {"market": mm.name, "after": ev, "got": last, "want": mm.last})
             self.check_counters(market, mm, t)
             if not running and ev != "fill":
-                self.probe("book_event_while_stopped")
                 if not mm.traded and want_mid is not None and not close(want_mid, mm.mp, 0.0):
                     self.probe("stopped_mid_differs_from_price")
+        if not running and ev != "fill":
+            self.probe("book_event_while_stopped")
         mm.mid = want_mid
         mm.mp = market.get_market_price() if "C08" not in self.on else want_mp
 
@@ -904,6 +907,10 @@ def _on_step_record(self, log, code):
     m = log.market
     self.rec(code, m.market_id, m.get_time(), log.session.session_id)
     self.stat("step_records")
+    if code == "StE" and self.markets and m is self.markets[0]:
+        sc = self.ext.pop("_step_consults", None)
+        if sc and len(sc) >= 2:
+            self.consult_seqs.add(tuple(sc))
     for p in self.plugins:
         p.on_step_record(self, log, code)
     self.observe(code)
@@ -918,6 +925,7 @@ def _on_consult(self, agent):
     t = self.markets[0].get_time() if self.markets else -1
     self.rec("Q", agent.agent_id, t)
     self.stat("consults")
+    self.ext.setdefault("_step_consults", []).append(agent.agent_id)
     for p in self.plugins:
         p.on_consult(self, agent, t)
     self.observe("consult")
